@@ -35,14 +35,22 @@ def run_case(c):
     rec = dict(c)
     events = []
     net = None
-    for k, key in enumerate(("r", "r2", "r3")):
-        R = np.array(c[key], dtype=float)
+    held = None
+    # r4: back to the first assignment, written INTO the array the caller passed last time (the usual
+    # "edit my resistance matrix, then tell the network" pattern)
+    for k, key in enumerate(("r", "r2", "r3", "r4")):
+        R = np.array(c["r" if key == "r4" else key], dtype=float)
         try:
             if net is None:
                 net = ResNetwork(R.copy(), silence_level=3)
                 events.append({"op": "construct", "key": key})
+            elif key == "r4":
+                held[...] = R
+                net.update_resistances(held)
+                events.append({"op": "update_resistances_same_array", "key": key})
             else:
-                net.update_resistances(R.copy())
+                held = R.copy()
+                net.update_resistances(held)
                 events.append({"op": "update_resistances", "key": key})
             obs = _observe(net, diameter_first=(k > 0))
             twin = _observe(ResNetwork(R.copy(), silence_level=3), diameter_first=False)
